@@ -26,6 +26,7 @@ import (
 type c17Case struct {
 	Kind   string `json:"kind"` // "stream" | "handshake"
 	Frames []int  `json:"frames,omitempty"`
+	Frags  []int  `json:"frags,omitempty"` // Frags[k] > 1: binary message k is sent as that many fragments (FIN=0, continuation frames): one payload for the reader
 	Texts  []int  `json:"texts,omitempty"` // Texts[k] > 0: a TEXT frame of that many bytes goes out before binary frame k (never part of the stream)
 	Sizes  []int  `json:"sizes,omitempty"`
 	Proto  string `json:"proto,omitempty"`
@@ -179,6 +180,11 @@ func (p *c17Prop) Gen(r *Rng, i int, tier string) interface{} {
 		} else {
 			c.Texts = append(c.Texts, 0)
 		}
+		if r.Chance(15) {
+			c.Frags = append(c.Frags, 2+r.Intn(3))
+		} else {
+			c.Frags = append(c.Frags, 1)
+		}
 	}
 	// read sizes: mostly the same buffer size (as bufio does), sometimes varying
 	vary := r.Chance(30)
@@ -240,7 +246,13 @@ func (p *c17Prop) Run(ci interface{}) interface{} {
 					// a data frame that is not binary: the protocol layer must never see its payload
 					_ = wsutil.WriteClientText(conn, []byte(strings.Repeat("z", c.Texts[next-1])))
 				}
-				if err := wsutil.WriteClientBinary(conn, buf); err != nil {
+				var err error
+				if next-1 < len(c.Frags) && c.Frags[next-1] > 1 {
+					err = writeFragments(conn, buf, c.Frags[next-1])
+				} else {
+					err = wsutil.WriteClientBinary(conn, buf)
+				}
+				if err != nil {
 					// the handler finished its reads and closed first: not an observation
 					closed = true
 				}
@@ -283,6 +295,23 @@ func (p *c17Prop) Run(ci interface{}) interface{} {
 		}
 	}
 	return obs
+}
+
+// writeFragments sends payload as one binary MESSAGE in parts frames: a binary frame with FIN=0, continuation frames,
+// the last with FIN=1 (RFC 6455 5.4); the split points are spread evenly, a part may be empty
+func writeFragments(conn net.Conn, payload []byte, parts int) error {
+	for i := 0; i < parts; i++ {
+		lo, hi := len(payload)*i/parts, len(payload)*(i+1)/parts
+		op := gws.OpContinuation
+		if i == 0 {
+			op = gws.OpBinary
+		}
+		f := gws.MaskFrameInPlace(gws.NewFrame(op, i == parts-1, append([]byte{}, payload[lo:hi]...)))
+		if err := gws.WriteFrame(conn, f); err != nil {
+			return err
+		}
+	}
+	return nil
 }
 
 func (p *c17Prop) runHandshake(c *c17Case) interface{} {
